@@ -385,6 +385,9 @@ func boundaryCases(r RouteSpec, thorough bool) []P {
 	}
 	for i := 0; i < len(nums); i++ {
 		for j := i + 1; j < len(nums); j++ {
+			if !thorough && (nums[i] == "limit" || nums[j] == "limit") {
+				continue // quick: limit only singly; it does not enter the window arithmetic
+			}
 			for _, a := range overflowSet(thorough) {
 				for _, b := range overflowSet(thorough) {
 					out = append(out, with(nums[i], a, nums[j], b))
